@@ -1828,6 +1828,19 @@ func (g *signersGGen) genCallerBase() string {
 			} else {
 				oldP = g.parties(1+g.r.Intn(2), false, g.r.Chance(30), true)
 			}
+			if rollup && len(session) > 0 && g.r.Chance(35) {
+				// the same (address, role) sits in both sessions with DIFFERENT optional flags: required in
+				// the previous session, optional in the new one (a duplicate by address and role only)
+				q := session[g.r.Intn(len(session))]
+				for i := range oldP {
+					if oldP[i].addr == q.addr && oldP[i].role == q.role {
+						oldP = append(oldP[:i], oldP[i+1:]...)
+						break
+					}
+				}
+				q.opt = !q.opt
+				oldP = append(oldP, q)
+			}
 			old = signersGParties(oldP)
 		}
 		roles := g.roles(session, 3)
